@@ -296,6 +296,19 @@ def run(chk, prog):
                             var.setdefault(getters.get(calls[0]["callee"].split("::")[-1]), []).append(d)
         ovars = var.get(cfg[name].field, [])
         wvars = var.get(wfield, [])
+        if len(wvars) == 0 or len(ovars) == 0:
+            # main may take the value through a getter that is not a plain `return field;`: then main decides on a transformed value while
+            # the writer tests the raw member, and the two can disagree (a negative value clamped to 0 is "not set" for main, "set" here)
+            for missing in ([wfield] if not wvars else []) + ([cfg[name].field] if not ovars else []):
+                shaped = [g_ for g_ in prog.functions.values() if g_.get("class") == "vfps::ProgramOptions" and g_.get("body") and g_["name"].startswith("get")
+                          and g_["name"] not in getters and any(A.this_field(y) == missing for y in A.walk(g_["body"]))]
+                used = [g_ for g_ in shaped if any(y.get("callee") == g_["qname"] for y in A.walk(mainf["body"]))]
+                if used:
+                    chk.fail("R4", used[0].where, "main reads %s through %s(), which does not return the member unchanged, while the writer decides '%s=%s' on the raw member: "
+                             "the saved file can say the option was ignored when the run used it (or the reverse)" % (missing, used[0]["name"], name, const),
+                             "save:subst:%s:getter-transforms:%s" % (name, used[0]["name"]))
+            if any(i_["rule"] == "R4" and not i_["ok"] and "getter-transforms" in (i_.get("key") or "") for i_ in chk.instances):
+                continue
         A.require(len(ovars) >= 1 and len(wvars) >= 1, "main: variables holding %s / %s not found" % (cfg[name].field, wfield))
         odecls, wdecls = {d_["decl"] for d_ in ovars}, {d_["decl"] for d_ in wvars}
         uses = []
